@@ -186,6 +186,7 @@ fn with<R>(f: impl FnOnce(&mut VfsState) -> R) -> R {
 /// Reset per-run state: deterministic randomness, counters, shadow model for `dir`.
 pub fn begin_run(seed: u64, dir: Option<&Path>) {
     install();
+    foreign_release_now();
     with(|s| {
         s.track_dir = dir.map(|d| d.to_path_buf());
         s.shadow.clear();
@@ -821,7 +822,48 @@ unsafe extern "C" fn v_randomness(_v: *mut ffi::sqlite3_vfs, n: c_int, out: *mut
 unsafe extern "C" fn v_sleep(_v: *mut ffi::sqlite3_vfs, us: c_int) -> c_int {
     // busy handler back-off: costs simulated time only, and is a scheduling point
     sched::sleep_us(us as i64, Site::BusySleep);
+    foreign_release_due();
     us
+}
+
+// ---------------------------------------------------------------------------------------------
+// environment fault: a foreign writer (another process, an admin shell) holds the write lock of
+// the database for a while
+
+struct ForeignHold {
+    con: rusqlite::Connection,
+    release_at: i64,
+}
+
+static FOREIGN: Mutex<Option<ForeignHold>> = Mutex::new(None);
+
+/// A foreign connection takes the write lock now and keeps it for `hold_us` of simulated time.
+pub fn foreign_hold(db: &Path, hold_us: i64) -> anyhow::Result<()> {
+    foreign_release_now();
+    let con = rusqlite::Connection::open(db)?;
+    con.execute_batch("BEGIN IMMEDIATE")?;
+    *FOREIGN.lock().unwrap() = Some(ForeignHold { con, release_at: sched::now_us() + hold_us });
+    Ok(())
+}
+
+/// Remaining simulated µs the foreign writer will hold the lock (0 = not held).
+pub fn foreign_remaining() -> i64 {
+    FOREIGN.lock().unwrap().as_ref().map(|h| (h.release_at - sched::now_us()).max(1)).unwrap_or(0)
+}
+
+fn foreign_release_due() {
+    let due = matches!(FOREIGN.lock().unwrap().as_ref(), Some(h) if sched::now_us() >= h.release_at);
+    if due {
+        foreign_release_now();
+    }
+}
+
+pub fn foreign_release_now() {
+    let h = FOREIGN.lock().unwrap().take();
+    if let Some(h) = h {
+        let _ = h.con.execute_batch("ROLLBACK");
+        drop(h);
+    }
 }
 
 fn julian_ms() -> i64 {
